@@ -21,7 +21,7 @@ EXPLANATION = (
     "; P7 - Aggregated.membership folds every activated term in, for any S-norm"
 )
 ASSUMPTIONS = ["the centroid/bisector values, range membership and the translation law are numeric and not decided"]
-FLOORS = {"S1": 10, "S2": 1, "R1": 3, "R2": 3, "R3": 5, "S5": 4, "V1": 5, "S6": 1}
+FLOORS = {"H5": 1, "H8": 2, "S1": 10, "S2": 1, "R1": 3, "R2": 3, "R3": 5, "S5": 4, "V1": 5, "S6": 1}
 
 CLASSES = ["Bisector", "Centroid", "LargestOfMaximum", "MeanOfMaximum", "SmallestOfMaximum"]
 REDUCERS = {"min": {"numpy.nanmin"}, "mean": {"numpy.nanmean"}, "max": {"numpy.nanmax"}}  # NaN-ignoring: the points that are not selected are NaN
@@ -40,6 +40,10 @@ def sample_terms(check: Check, cname: str):
     if not rets:
         raise AnalysisError(f"{cname}.defuzzify returns nothing")
     ret = r.term(rets[-1].ast.value, rets[-1])  # type: ignore[union-attr]
+    from ..absint import inline_self_methods
+
+    # helper methods of the defuzzifier (`self.samples(minimum, maximum)`) are read as what they return; one with statements of its own is outside the model
+    ret = inline_self_methods(p, p.cls(cname), ret, exclude=("defuzzify",), strict=True)
     return fn, r, cfg, ret
 
 
@@ -48,6 +52,12 @@ def run(check: Check) -> None:
     from . import wiring
 
     wiring.p7_aggregated_membership(check)  # Aggregated.membership (anchor of this property): every activated term is folded in, for any S-norm
+    from .common import memoisation_rule
+
+    from . import c13
+
+    c13.step_state(check, reads=False)  # H5: nothing a defuzzifier computes is kept on the object from one call to the next (a cache of sample points goes stale)
+    memoisation_rule(check)  # H8: the sample grid and the memberships are computed for the call - nothing answers from a cache of shared, writable arrays
     infos = {}
     for cname in CLASSES:
         fn, r, cfg, ret = sample_terms(check, cname)
